@@ -209,8 +209,29 @@ use crate::std_ext::SMap;
 use core::marker::PhantomData;
 use super::{MapRange, Bound};
 verus! {
-#[derive(Debug)]
-pub struct UniqueIndex<'a, IK, T, PK = ()> { pub ns: &'a str, pub p: PhantomData<(IK, T, PK)> }
+/// A unique secondary index: `idx` is the (ghost) meaning of the index function given to `new`.
+#[verifier::reject_recursive_types(IK)]
+#[verifier::reject_recursive_types(T)]
+pub struct UniqueIndex<'a, IK, T, PK = ()> { pub ns: &'a str, pub idx: Ghost<spec_fn(T) -> IK>, pub p: PhantomData<(IK, T, PK)> }
+impl<'a, IK, T, PK> UniqueIndex<'a, IK, T, PK> {
+    /// indexes.rs: `UniqueIndex::new(idx_fn, namespace)`; `idx(t)` is the value the (pure) index
+    /// function returns on `t`
+    #[verifier::external_body]
+    pub fn new<F: Fn(&T) -> IK>(idx_fn: F, ns: &'a str) -> (r: Self)
+        requires forall|t: T| #[trigger] idx_fn.requires((&t,)),
+        ensures forall|t: T| idx_fn.ensures((&t,), #[trigger] (r.idx@)(t)),
+    { unimplemented!() }
+}
+impl<'a, IK, T, PK> core::fmt::Debug for UniqueIndex<'a, IK, T, PK> {
+    #[verifier::external_body]
+    fn fmt(&self, f: &mut core::fmt::Formatter<'_>) -> core::fmt::Result { unimplemented!() }
+}
+impl<'a, T, I> IndexedMap<'a, (u64, String), T, I> {
+    #[verifier::external_body]
+    pub fn new(ns: &'a str, indexes: I) -> (r: Self)
+        ensures r.idx == indexes
+    { unimplemented!() }
+}
 #[derive(Debug)]
 pub struct IndexedMap<'a, K, T, I> { pub ns: &'a str, pub idx: I, pub p: PhantomData<(K, T)> }
 
@@ -255,14 +276,14 @@ impl<'a, T: Serialize, I> IndexedMap<'a, (u64, String), T, I> {
         ensures r.batch == p
     { unimplemented!() }
 }
-#[derive(Debug)]
 /// `idx.by_user.prefix(user)`: the entries whose *value* is indexed under `user`
-/// (the index function of the repo's only UniqueIndex is `(r.user, r.batch_id)`, see state.vc)
-pub struct UPrefix<T> { pub user: String, pub p: PhantomData<T> }
+/// (by the index function the UniqueIndex was built with)
+#[verifier::reject_recursive_types(T)]
+pub struct UPrefix<T> { pub user: String, pub idx: Ghost<spec_fn(T) -> (String, u64)>, pub p: PhantomData<T> }
 impl<'a, T: Serialize, PK> UniqueIndex<'a, (String, u64), T, PK> {
     #[verifier::external_body]
     pub fn prefix(&self, p: String) -> (r: UPrefix<T>)
-        ensures r.user == p
+        ensures r.user == p, r.idx == self.idx
     { unimplemented!() }
     /// whole-index range with a bound: deprecated queries only, left unspecified
     #[verifier::external_body]
@@ -277,12 +298,12 @@ impl<T: Serialize> UPrefix<T> {
         requires min is None, max is None, order == Order::Ascending,
         ensures
             forall|i: int| 0 <= i < r.items@.len() ==> (#[trigger] r.items@[i]) is Ok
-                && T::idx_user(r.items@[i]->Ok_0.1) == self.user
+                && (self.idx@)(r.items@[i]->Ok_0.1).0 == self.user
                 && T::imap_get(s@).contains_value(r.items@[i]->Ok_0.1),
-            forall|k: (u64, String)| #[trigger] T::imap_get(s@).dom().contains(k) && T::idx_user(T::imap_get(s@)[k]) == self.user
+            forall|k: (u64, String)| #[trigger] T::imap_get(s@).dom().contains(k) && (self.idx@)(T::imap_get(s@)[k]).0 == self.user
                 ==> exists|i: int| 0 <= i < r.items@.len() && (#[trigger] r.items@[i])->Ok_0.1 == T::imap_get(s@)[k],
             forall|i: int, j: int| 0 <= i < j < r.items@.len()
-                ==> T::idx_batch((#[trigger] r.items@[i])->Ok_0.1) < T::idx_batch((#[trigger] r.items@[j])->Ok_0.1),
+                ==> (self.idx@)((#[trigger] r.items@[i])->Ok_0.1).1 < (self.idx@)((#[trigger] r.items@[j])->Ok_0.1).1,
     { unimplemented!() }
 }
 pub struct IPrefix<T> { pub batch: u64, pub p: PhantomData<T> }
